@@ -114,9 +114,12 @@ def hostile_item(rng: random.Random) -> bytes:
     if k == "hdrlen":
         return bytes((rng.choice([5, 7, 0, 0xFF]), 0x10)) + struct.pack(">HH", W.TUNNEL_ACK, 10) + bytes(4)
     if k == "short_total":
-        return bytes((6, 0x10)) + struct.pack(">HH", rng.choice([W.TUNNEL_ACK, W.SEARCH_REQ, 0x0FFF]), rng.randint(1, 5))
+        # (also services whose body may be empty: nothing but the header then says where the frame ends)
+        return bytes((6, 0x10)) + struct.pack(">HH", rng.choice([W.TUNNEL_ACK, W.SEARCH_REQ, 0x0FFF, W.DESCR_RES, W.ROUTING_IND,
+                                                                  W.SEARCH_RES_EXT]), rng.randint(1, 5))
     if k == "zero_total":
-        return bytes((6, 0x10)) + struct.pack(">HH", rng.choice([W.TUNNEL_ACK, W.DESCR_REQ, 0x0FFF]), 0)
+        return bytes((6, 0x10)) + struct.pack(">HH", rng.choice([W.TUNNEL_ACK, W.DESCR_REQ, 0x0FFF, W.DESCR_RES, W.ROUTING_IND,
+                                                                  W.SEARCH_RES_EXT]), 0)
     return bytes(rng.randrange(256) for _ in range(rng.randint(1, 20)))
 
 
@@ -203,7 +206,10 @@ def gen(seed: int, tier: str) -> dict[str, Any]:
                                                    # connection_lost is reported late (unflushed write buffer) - after the
                                                    # same transport object has connected again
                                                    "late_lost": rng.choice([0.005, 0.02]) if reconnect_cut and rng.random() < 0.5
-                                                   else None},
+                                                   else None,
+                                                   # a second TCP transport of the same process receives its own stream
+                                                   # meanwhile (non-exhaustive runs)
+                                                   "shadow": proto == "tcp" and not exhaustive and rng.random() < 0.25},
             "items": items, "chunkings": chunkings, "fault_policy": policy}
 
 
@@ -219,10 +225,13 @@ class _Peer:
         self.chunks: list[bytes] = []
         self.conn = None
 
+    auto = True
+
     def on_accept(self, conn):
         self.conn = conn
-        for ch in self.chunks:
-            conn.send_to_client(ch, lat=0.001)
+        if self.auto:
+            for ch in self.chunks:
+                conn.send_to_client(ch, lat=0.001)
 
     def on_data(self, conn, data):
         pass
@@ -256,7 +265,7 @@ def run(plan: dict[str, Any]) -> dict[str, Any]:
             return (svc, b.communication_channel, b.crd.individual_address.raw if b.crd.individual_address else 0)
         if svc == W.ROUTING_IND:
             c = W.parse_cemi_ldata(bytes(b.raw_cemi))
-            return (svc, c["src"] & 0xFF, c["dst"] & 0xFF)
+            return (svc, c["src"] & 0xFF, c["dst"] & 0xFF) if c else (svc, -1, -1)
         if svc == W.ROUTING_BUSY:
             return (svc, b.wait_time, 0)
         return (svc, -1, -1)
@@ -300,6 +309,39 @@ def run(plan: dict[str, Any]) -> dict[str, Any]:
         tr = TCPTransport(("10.0.0.9", 3671))
         attach(tr, delivered)
         before = len(net.protocol_escapes)
+        if cfg.get("shadow"):
+            # a second TCP transport of the same process receives its own stream meanwhile, chunk by chunk in turn with the
+            # judged one - every chunk of it ends inside a frame
+            peer.auto = False
+            peer2 = _Peer()
+            peer2.auto = False
+            net.tcp_listen("10.0.0.8", 3671, peer2)
+            n2 = max(2, min(12, len(chunks)))
+            stream2 = b"".join(W.frame(W.TUNNEL_ACK, bytes((4, 200, i & 0xFF, 0))) for i in range(n2))
+            cuts = [4 + 10 * i for i in range(n2)]
+            chunks2 = [stream2[a:b] for a, b in zip([0] + cuts, cuts + [len(stream2)])]
+            got2: list[tuple] = []
+            tr2 = TCPTransport(("10.0.0.8", 3671))
+            attach(tr2, got2)
+            await tr.connect()
+            await tr2.connect()
+            await asyncio.sleep(0.005)
+            for i in range(max(len(chunks), len(chunks2))):
+                if i < len(chunks) and peer.conn is not None:
+                    peer.conn.send_to_client(chunks[i], lat=0.001)
+                if i < len(chunks2) and peer2.conn is not None:
+                    peer2.conn.send_to_client(chunks2[i], lat=0.001)
+            await asyncio.sleep(0.002 * (len(chunks) + len(chunks2)) + 0.05)
+            tr.stop()
+            tr2.stop()
+            R.extra_faults["second_tcp_transport_receiving_meanwhile"] += 1
+            if len(got2) != n2:
+                R.violate("C22.tcp-once-in-order", "second-transport:frames-lost" if len(got2) < n2 else "second-transport:frames-duplicated",
+                          f"[{label}] the second transport of the process delivered {len(got2)} of its {n2} frames")
+            await asyncio.sleep(0.01)
+            stats["chunkings"] += 1
+            judge(delivered, label, before)
+            return
         await tr.connect()
         await asyncio.sleep(0.002 * len(chunks) + 0.05)
         tr.stop()
